@@ -1,7 +1,7 @@
 (** The scheduler-level machine (coq/Machine): whole-library halves of C01 / C02 / C04 / C12.
     Statements only; proofs in Machine/MachineProofs.v. *)
 From Coq Require Import List Arith.
-From MT Require Import Lib.Interleave Machine.MachineModel Machine.MachineProofs Machine.VictimModel Machine.VictimProofs.
+From MT Require Import Lib.Interleave Machine.MachineModel Machine.MachineProofs Machine.MachineMore Machine.VictimModel Machine.VictimProofs.
 Import ListNotations.
 
 (** For every number of workers and threads and every schedule of machine moves (creations in both
@@ -31,6 +31,41 @@ Theorem M_parked_not_current : forall s t w, parked s t = true -> Inv s -> nth_e
 Proof. exact parked_not_current. Qed.
 Print Assumptions M_parked_not_current.
 
+(** conservation: a runnable thread (in exactly one place) stays in exactly one place under every move of every
+    worker - pops, steals, dispatches, creations and wake-ups of other threads - except its own context save or
+    finish on the worker it runs on: nobody's queue operation loses or duplicates somebody else's thread *)
+Theorem M_no_thread_lost : forall s w m s' t, Inv s -> mmove s w m = Some s' -> places s t = 1 ->
+  places s' t = 1 \/ (places s' t = 0 /\ nth_error (cur s) w = Some (Run t) /\ (m = SaveCtx \/ m = FinishCtx)).
+Proof. exact no_thread_lost. Qed.
+Print Assumptions M_no_thread_lost.
+
+(** a thread in no place (blocked, or not yet created) enters a place only by its creation, as the registered
+    joiner, by a wake-up naming it, or by its own yield callback *)
+Theorem M_parked_until_woken : forall s w m s' t, Inv s -> mmove s w m = Some s' -> places s t = 0 ->
+  places s' t = 0 \/
+  (places s' t = 1 /\ (m = CreateCF t \/ m = CreatePF t \/ m = TakeJoiner t \/ m = PushTop t \/
+                        (m = PutBase /\ nth_error (cur s) w = Some (Cb t)))).
+Proof. exact parked_until_woken. Qed.
+Print Assumptions M_parked_until_woken.
+
+(** yield gives way (used by C20: a sleeper polling with yield lets the other runnable threads of its worker
+    run): with run queue r ++ [x] the yield sequence pop / save / put-at-base / end-of-callback is enabled and
+    leaves x running and the yielder at the base, behind everything that was queued; nothing else changes *)
+Theorem M_yield_gives_way : forall s w t r x, Inv s ->
+  nth_error (cur s) w = Some (Run t) -> nth_error (hand s) w = Some None -> nth_error (dq s) w = Some (r ++ [x]) ->
+  runo s (yield_moves w) =
+    Some {| cur := upd (cur s) w (Run x); hand := hand s; dq := upd (dq s) w (t :: r); stat := stat s |}.
+Proof. exact yield_gives_way. Qed.
+Print Assumptions M_yield_gives_way.
+
+(** work conservation: an idle worker can take work whenever any run queue is non-empty (own top or the victim's
+    base); with [M_victim_surjective] no queued thread is out of reach of an idle worker *)
+Theorem M_idle_can_take : forall s w v x q qw, nth_error (cur s) w = Some Sched -> nth_error (hand s) w = Some None ->
+  nth_error (dq s) w = Some qw -> nth_error (dq s) v = Some (x :: q) ->
+  exists m s', (m = PopOwn \/ m = Steal v) /\ mmove s w m = Some s' /\ exists y, nth_error (hand s') w = Some (Some y).
+Proof. exact idle_can_take. Qed.
+Print Assumptions M_idle_can_take.
+
 (** steal-victim selection of the default steal function: for every number of workers >= 2 the victim is a
     valid worker other than the thief, and every other worker is the victim for some value of the random
     source - no worker's run queue is unreachable for an idle worker (the fairness of the random source
@@ -51,3 +86,10 @@ Example M_example :
   let s := run mstep [(0, CreateCF 1); (1, Steal 0); (1, RunHand); (0, SaveCtx); (0, EndCb); (1, PushTop 1)] (minit 2 3) in
   cur s = [Sched; Run 0] /\ dq s = [[]; [1]] /\ places s 1 = 1 /\ places s 0 = 1 /\ places s 2 = 0.
 Proof. vm_compute. repeat split; reflexivity. Qed.
+
+(** non-vacuity of the yield theorem: main creates t1 and t2 parent-first, then yields: t2 (the newest) runs, main
+    is behind t1 at the base *)
+Example M_yield_example :
+  let s := run mstep [(0, CreatePF 1); (0, CreatePF 2)] (minit 1 3) in
+  dq s = [[1; 2]] /\ runo s (yield_moves 0) = Some {| cur := [Run 2]; hand := [None]; dq := [[0; 1]]; stat := stat s |}.
+Proof. vm_compute. split; reflexivity. Qed.
